@@ -7,8 +7,10 @@ import (
 	"net"
 	"os"
 	"sort"
+	"strconv"
 	"strings"
 	"sync"
+	"syscall"
 	"testing"
 	"time"
 
@@ -53,6 +55,18 @@ type realSpec struct {
 	BigGroup    bool          `json:"big_group"`
 	JoinAt      time.Duration `json:"join_at,omitempty"` // the LAST instance of Names starts only then, with an empty data directory
 	Seed        int64         `json:"seed"`
+	// SettleTimeout of every instance (--cluster.settle-timeout); below the first settle poll (10 gossip
+	// intervals = 500 ms) the settle phase ends by its time-out, not by a stable membership
+	SettleTimeout time.Duration `json:"settle_timeout"`
+	// TLS: gossip over the TLS transport (certificates of cluster/testdata). RestartAt/RestartBackAt: the
+	// position-1 instance is stopped and started again on the same address with its data directory.
+	TLS           bool          `json:"tls,omitempty"`
+	RestartAt     time.Duration `json:"restart_at,omitempty"`
+	RestartBackAt time.Duration `json:"restart_back_at,omitempty"`
+}
+
+func (s *realSpec) healthy() bool {
+	return s.Kind == "healthy" || s.Kind == "settle-ends-by-timeout" || s.Kind == "tls-instance-restarts"
 }
 
 func (s *realSpec) pos(i int) int {
@@ -104,7 +118,7 @@ type realRun struct {
 	seen map[string][]seenEntry // instance|groupkey -> entries in the order first seen
 
 	joinerReadyAt time.Time // late joiner: first instant it reported "ready" with full membership
-	ops  []string
+	ops           []string
 }
 
 func (rr *realRun) note(f string, a ...any) {
@@ -173,14 +187,20 @@ func runReal(sp *realSpec, dir string) (*realRun, string) {
 	if sp.JoinAt > 0 {
 		n0 = sp.Size - 1
 	}
+	tlsFile := ""
+	if sp.TLS {
+		tlsFile = "/repo/cluster/testdata/tls_config_node1.yml"
+	}
 	startInst := func(i int) (*sim.Instance, error) {
 		var peers []string
-		for j := 0; j < i; j++ {
-			peers = append(peers, addrs[j])
+		for j := range addrs {
+			if j < i || (sp.RestartAt > 0 && j != i) {
+				peers = append(peers, addrs[j])
+			}
 		}
 		return sim.Start(sim.Options{Name: sp.Names[i], ConfigYAML: sp.yaml(), Dir: fmt.Sprintf("%s/i%d", dir, i), Log: rr.log, Script: script,
-			RealCluster: &sim.RealCluster{BindAddr: addrs[i], PeerName: sp.Names[i], Peers: peers, PeerTimeout: sp.PeerTimeout,
-				GossipInterval: 50 * time.Millisecond, PushPull: time.Hour, ProbeTimeout: 5 * time.Second, ProbeInterval: 10 * time.Second, SettleTimeout: 30 * time.Second}})
+			RealCluster: &sim.RealCluster{BindAddr: addrs[i], PeerName: sp.Names[i], Peers: peers, PeerTimeout: sp.PeerTimeout, TLSConfigFile: tlsFile,
+				GossipInterval: 50 * time.Millisecond, PushPull: time.Hour, ProbeTimeout: 5 * time.Second, ProbeInterval: 10 * time.Second, SettleTimeout: sp.SettleTimeout}})
 	}
 	for i := 0; i < n0; i++ {
 		var peers []string
@@ -188,8 +208,8 @@ func runReal(sp *realSpec, dir string) (*realRun, string) {
 			peers = append(peers, addrs[j])
 		}
 		in, err := sim.Start(sim.Options{Name: sp.Names[i], ConfigYAML: sp.yaml(), Dir: fmt.Sprintf("%s/i%d", dir, i), Log: rr.log, Script: script,
-			RealCluster: &sim.RealCluster{BindAddr: addrs[i], PeerName: sp.Names[i], Peers: peers, PeerTimeout: sp.PeerTimeout,
-				GossipInterval: 50 * time.Millisecond, PushPull: time.Hour, ProbeTimeout: 5 * time.Second, ProbeInterval: 10 * time.Second, SettleTimeout: 30 * time.Second}})
+			RealCluster: &sim.RealCluster{BindAddr: addrs[i], PeerName: sp.Names[i], Peers: peers, PeerTimeout: sp.PeerTimeout, TLSConfigFile: tlsFile,
+				GossipInterval: 50 * time.Millisecond, PushPull: time.Hour, ProbeTimeout: 5 * time.Second, ProbeInterval: 10 * time.Second, SettleTimeout: sp.SettleTimeout}})
 		if err != nil {
 			return nil, "start: " + err.Error()
 		}
@@ -208,6 +228,10 @@ func runReal(sp *realSpec, dir string) (*realRun, string) {
 			}
 		}
 		if ok {
+			break
+		}
+		if sp.Kind == "settle-ends-by-timeout" && time.Now().After(deadline.Add(-30*time.Second)) {
+			// an instance that is not ready 10 s after a 300 ms settle time-out is judged by what it delivers
 			break
 		}
 		if time.Now().After(deadline) {
@@ -275,6 +299,7 @@ func runReal(sp *realSpec, dir string) (*realRun, string) {
 		alerts = []al{{L("A", "1"), 0, -1}, {L("A", "2"), 0, -1}, {L("B", "1"), 0, -1}}
 	}
 	left := false
+	down, restarted := -1, false
 	for tick := 0; ; tick++ {
 		at := time.Duration(tick) * time.Second
 		if at >= sp.Length {
@@ -290,6 +315,47 @@ func runReal(sp *realSpec, dir string) (*realRun, string) {
 				}
 			}
 			left = true
+		}
+		if sp.RestartAt > 0 && down < 0 && !restarted && now.Sub(rr.start) >= sp.RestartAt {
+			for i, in := range rr.insts {
+				if sp.pos(i) == 1 {
+					rr.note("instance %s (position 1) is stopped", in.Name)
+					in.Stop()
+					if p := in.VI.ClusterPeer(); p != nil {
+						p.VerifCloseTransport() // what the exit of the process does: the address becomes free
+					}
+					// ... and every connection the instance had accepted is closed by the kernel. Inside one test
+					// process those sockets would stay open (the transport only closes its listener), and the other
+					// instance's pooled connection to the OLD incarnation would keep accepting writes that nobody
+					// reads - a state no real restart produces.
+					if _, ps, err := net.SplitHostPort(addrs[i]); err == nil {
+						if port, err := strconv.Atoi(ps); err == nil {
+							rr.note("closed %d accepted connections of the stopped instance", shutdownAcceptedConns(port))
+						}
+					}
+					down = i
+				}
+			}
+		}
+		if down >= 0 && now.Sub(rr.start) >= sp.RestartBackAt {
+			var in *sim.Instance
+			var err error
+			for k := 0; k < 20; k++ { // the listening address may linger for a moment
+				if in, err = startInst(down); err == nil {
+					break
+				}
+				time.Sleep(100 * time.Millisecond)
+			}
+			if err != nil {
+				close(stopMon)
+				monWG.Wait()
+				return nil, "restart: " + err.Error()
+			}
+			rr.note("instance %s is started again on the same address with its data directory", in.Name)
+			rr.mu.Lock()
+			rr.insts[down] = in
+			rr.mu.Unlock()
+			down, restarted = -1, true
 		}
 		if sp.JoinAt > 0 && len(rr.insts) < sp.Size && now.Sub(rr.start) >= sp.JoinAt {
 			in, err := startInst(sp.Size - 1)
@@ -334,7 +400,7 @@ func runReal(sp *realSpec, dir string) (*realRun, string) {
 		}
 		order := r.Perm(len(rr.insts))
 		for _, i := range order {
-			if left && sp.pos(i) == 0 {
+			if (left && sp.pos(i) == 0) || i == down {
 				continue
 			}
 			if code, msg := rr.insts[i].PostAlerts(batch...); code != 200 {
@@ -399,8 +465,8 @@ func judgeReal(rr *realRun, sub *vf.Sub) []realVerdict {
 		if sp.LeaveAt > 0 && a.Start.After(leave.Add(-100*time.Millisecond)) {
 			continue // membership (and with it the position) legitimately changes around the leave
 		}
-		if sp.JoinAt > 0 {
-			continue // positions change when the joiner arrives (judged in the other kinds)
+		if sp.JoinAt > 0 || sp.RestartAt > 0 {
+			continue // positions change when the joiner arrives / an instance is away (judged in the other kinds)
 		}
 		sub.Count("waits_judged", 1)
 		if w := a.Start.Sub(a.Tick); w < time.Duration(p)*sp.PeerTimeout {
@@ -454,6 +520,39 @@ func judgeReal(rr *realRun, sub *vf.Sub) []realVerdict {
 			}
 		}
 	}
+	// (g) in a healthy mesh (gossip interval 50 ms, loopback) a later-positioned instance does not repeat a
+	// state that another instance had delivered more than 500 ms before it consulted its log (its log is
+	// consulted right before the delivery starts): the entry had ten gossip rounds to arrive. Judged on
+	// timing, hence only believed when it reproduces (see the caller).
+	if sp.healthy() {
+		for _, x := range atts {
+			if sp.pos(indexOf(sp.Names, x.Instance)) == 0 {
+				continue
+			}
+			for _, y := range atts {
+				if y.Outcome != "ok" || y.Instance == x.Instance || y.GroupKey != x.GroupKey || !y.End.Add(500*time.Millisecond).Before(x.Start) {
+					continue
+				}
+				if strings.Join(x.Firing(), ";") != strings.Join(y.Firing(), ";") || !subsetOf(x.ResolvedKeys(), y.ResolvedKeys()) || len(x.Firing()) == 0 {
+					continue
+				}
+				changed := false
+				for _, z := range atts {
+					if z.Outcome == "ok" && z.GroupKey == x.GroupKey && z.End.After(y.End) && z.End.Before(x.Start) && (strings.Join(z.Firing(), ";") != strings.Join(x.Firing(), ";") || !subsetOf(x.ResolvedKeys(), z.ResolvedKeys())) {
+						changed = true
+					}
+				}
+				if sp.RestartAt > 0 && y.End.Before(rr.start.Add(sp.RestartBackAt+3*time.Second)) {
+					continue // delivered while x's instance was away or still joining
+				}
+				sub.Count("healthy_repeats_judged", 1)
+				if !changed {
+					out = append(out, realVerdict{"instance-repeated-a-state-delivered-well-before-it-consulted-its-log", with(map[string]any{"repeat": desc(x), "covered_by": desc(y)})})
+				}
+				break
+			}
+		}
+	}
 	for _, x := range atts {
 		if x.Outcome == "ok" {
 			sub.Count("notifications", 1)
@@ -464,7 +563,7 @@ func judgeReal(rr *realRun, sub *vf.Sub) []realVerdict {
 	// (e) in a healthy mesh every instance receives the log entry of every successful notification:
 	// the monitor must have seen, in every OTHER instance's log, an entry of that group with a timestamp
 	// not older than the notification, within 5 s (gossip interval 50 ms, direct sends for large entries)
-	if sp.Kind == "healthy" {
+	if sp.healthy() {
 		for _, y := range atts {
 			if y.Outcome != "ok" || y.End.After(rr.start.Add(sp.Length-6*time.Second)) {
 				continue
@@ -615,12 +714,19 @@ func subsetOf(a, b []string) bool {
 
 func genRealSpec(r *rand.Rand, seed int64, i int) *realSpec {
 	sp := &realSpec{Seed: seed}
-	kinds := []string{"healthy", "late-joiner-without-data", "first-position-cannot-deliver", "leader-leaves", "only-last-position-can-deliver", "healthy"}
+	kinds := []string{"healthy", "late-joiner-without-data", "first-position-cannot-deliver", "leader-leaves", "only-last-position-can-deliver", "settle-ends-by-timeout", "tls-instance-restarts"}
 	sp.Kind = kinds[i%len(kinds)]
 	sp.Size = 2 + r.Intn(2)
 	sp.PeerTimeout = time.Second
 	sp.GroupWait = 300 * time.Millisecond
 	sp.Length = 12 * time.Second
+	sp.SettleTimeout = 30 * time.Second
+	if sp.Kind == "settle-ends-by-timeout" {
+		sp.SettleTimeout = 300 * time.Millisecond
+	}
+	if sp.Kind == "tls-instance-restarts" {
+		sp.Size, sp.TLS = 2, true
+	}
 	if sp.Kind == "late-joiner-without-data" {
 		// two initial members: a lone member keeps its broadcasts queued (nobody to gossip to) and would hand
 		// them to the joiner by ordinary gossip; with two, the queues have drained long before the join
@@ -646,7 +752,7 @@ func genRealSpec(r *rand.Rand, seed int64, i int) *realSpec {
 	names := []string{"peer-a", "peer-b", "peer-c"}[:sp.Size]
 	r.Shuffle(len(names), func(a, b int) { names[a], names[b] = names[b], names[a] })
 	sp.Names = names
-	sp.BigGroup = sp.Kind == "healthy" && r.Intn(2) == 0
+	sp.BigGroup = sp.healthy() && r.Intn(2) == 0
 	sp.Failing = make([]bool, sp.Size)
 	sp.FailKind = []string{"recoverable", "unrecoverable"}[r.Intn(2)]
 	switch sp.Kind {
@@ -660,6 +766,8 @@ func genRealSpec(r *rand.Rand, seed int64, i int) *realSpec {
 		}
 	case "late-joiner-without-data":
 		sp.JoinAt = sp.AddAt + 1500*time.Millisecond
+	case "tls-instance-restarts":
+		sp.RestartAt, sp.RestartBackAt = time.Second, 2*time.Second
 	case "leader-leaves":
 		sp.LeaveAt = sp.GroupIntvl + time.Duration(r.Intn(2000))*time.Millisecond
 	}
@@ -668,9 +776,9 @@ func genRealSpec(r *rand.Rand, seed int64, i int) *realSpec {
 
 func TestRealMesh(t *testing.T) {
 	run := vf.Cur()
-	sub := run.Sub("real-mesh-loopback", "2-3 unmodified instances with the REAL gossip mesh (memberlist on loopback, real Peer.Position / clusterWait / pipeline time-out extension / settle), real time; every instance is (re-)sent the same alerts once a second; kinds: healthy, a late joiner with an empty data directory (it must hold the log entries of the groups notified before within 5 s of reporting ready - rule (f)), position 0 cannot deliver (recoverable or unrecoverable errors), position 0 leaves gracefully mid-run, only the last position can deliver with a cluster wait (12 s) above the base pipeline time-out; a monitor polls every instance's notification log every 3 ms; judged: (a) no delivery starts earlier than position x peer_timeout after its flush tick while membership is complete, (b) at the end some instance has delivered the current state of every group and the resolution, (c) no instance repeats a state whose covering entry the monitor had seen in that instance's log before the flush tick, (e) in healthy runs (half of them with a 120-alert group whose log entry exceeds the 700-byte direct-send threshold) the entry of every successful notification is seen in every other instance's log within 5 s; a miss of (b) or (e) must reproduce on 3 runs; non-trivial = >=2 successful notifications and every instance was ready with full membership; distinct by (seed)", 4)
-	n := run.N(12, 240)
-	vf.Parallel(t, n, 12, func(t *testing.T, i int) {
+	sub := run.Sub("real-mesh-loopback", "2-3 unmodified instances with the REAL gossip mesh (memberlist on loopback, real Peer.Position / clusterWait / pipeline time-out extension / settle), real time; every instance is (re-)sent the same alerts once a second; kinds: healthy, a late joiner with an empty data directory (it must hold the log entries of the groups notified before within 5 s of reporting ready - rule (f)), position 0 cannot deliver (recoverable or unrecoverable errors), position 0 leaves gracefully mid-run, only the last position can deliver with a cluster wait (12 s) above the base pipeline time-out, a healthy mesh whose instances end their settle phase by its time-out (300 ms, before the first settle poll) instead of by a stable membership, a healthy 2-instance mesh over the TLS gossip transport whose position-1 instance is stopped and started again on the same address (the other instance's pooled connection to it breaks); a monitor polls every instance's notification log every 3 ms; judged: (a) no delivery starts earlier than position x peer_timeout after its flush tick while membership is complete, (b) at the end some instance has delivered the current state of every group and the resolution, (c) no instance repeats a state whose covering entry the monitor had seen in that instance's log before the flush tick, (g) in healthy runs no later-positioned instance repeats a state another instance delivered more than 500 ms before it consulted its log, (e) in healthy runs (half of them with a 120-alert group whose log entry exceeds the 700-byte direct-send threshold) the entry of every successful notification is seen in every other instance's log within 5 s; a miss of (b), (e) or (g) must reproduce on 3 runs; non-trivial = >=2 successful notifications and every instance was ready with full membership; distinct by (seed)", 4)
+	n := run.N(14, 280)
+	vf.Parallel(t, n, 14, func(t *testing.T, i int) {
 		r := sub.Rand(i)
 		sp := genRealSpec(r, sub.Seed(i), i)
 		var verdicts []realVerdict
@@ -692,7 +800,7 @@ func TestRealMesh(t *testing.T) {
 			verdicts = judgeReal(rr, sub)
 			timing := false
 			for _, v := range verdicts {
-				if v.sig == "joining-instance-did-not-obtain-the-notification-log-at-join" || v.sig == "no-instance-delivered-the-current-group-state" || v.sig == "no-instance-reported-the-resolved-alert" || v.sig == "log-entry-of-a-notification-not-received-by-a-peer-in-a-healthy-mesh" {
+				if v.sig == "joining-instance-did-not-obtain-the-notification-log-at-join" || v.sig == "no-instance-delivered-the-current-group-state" || v.sig == "no-instance-reported-the-resolved-alert" || v.sig == "log-entry-of-a-notification-not-received-by-a-peer-in-a-healthy-mesh" || v.sig == "instance-repeated-a-state-delivered-well-before-it-consulted-its-log" {
 					timing = true
 				}
 			}
@@ -724,4 +832,46 @@ func TestRealMesh(t *testing.T) {
 		rr.mu.Unlock()
 		sub.Case(vf.Digest(sub.Seed(i)), ok >= 2)
 	})
+}
+
+// shutdownAcceptedConns shuts down (both directions) every established TCP connection of this process
+// whose LOCAL port is the given listening port, i.e. the connections a listener on that port had accepted:
+// what the kernel does to them when the owning process exits. Linux only (/proc).
+func shutdownAcceptedConns(port int) int {
+	b, err := os.ReadFile("/proc/self/net/tcp")
+	if err != nil {
+		return 0
+	}
+	inodes := map[string]bool{}
+	for _, ln := range strings.Split(string(b), "\n")[1:] {
+		f := strings.Fields(ln)
+		if len(f) < 10 || f[3] != "01" { // ESTABLISHED
+			continue
+		}
+		k := strings.LastIndex(f[1], ":")
+		if k < 0 {
+			continue
+		}
+		if p, err := strconv.ParseInt(f[1][k+1:], 16, 32); err != nil || int(p) != port {
+			continue
+		}
+		inodes[f[9]] = true
+	}
+	if len(inodes) == 0 {
+		return 0
+	}
+	n := 0
+	fds, _ := os.ReadDir("/proc/self/fd")
+	for _, e := range fds {
+		lnk, err := os.Readlink("/proc/self/fd/" + e.Name())
+		if err != nil || !strings.HasPrefix(lnk, "socket:[") {
+			continue
+		}
+		if inodes[strings.TrimSuffix(strings.TrimPrefix(lnk, "socket:["), "]")] {
+			if fd, err := strconv.Atoi(e.Name()); err == nil && syscall.Shutdown(fd, syscall.SHUT_RDWR) == nil {
+				n++
+			}
+		}
+	}
+	return n
 }
